@@ -98,10 +98,12 @@ def prepare_aspirate_dispense_parameters(
         volume = float(volume)
     except:
         raise ValueError(f"Invalid volume: {volume}")
-    if volume < 0 or volume > 7158278 or numpy.isnan(volume):
+    if volume < 0 or numpy.isnan(volume):
         raise ValueError(f"Invalid volume: {volume}")
     if max_volume is not None and volume > max_volume:
         raise InvalidOperationError(f"Volume of {volume} exceeds max_volume.")
+    if volume > 7158278:
+        raise ValueError(f"Invalid volume: {volume}")
 
     # optional parameters
     if not isinstance(liquid_class, str) or ";" in liquid_class:
